@@ -393,7 +393,7 @@ def _numeric_pairs(cfg, model, keys, real_h1=False):
         vecs = [(v, Lq[:, off[b] : off[b + 1]]) for b, v in enumerate(vecs)]
     h0_in = sparse.csr_array(H0_lab) if cfg.get("h0_format") == "sparse" else H0_lab
     kw = {"fully_diagonalize": tuple(cfg["fd"])} if cfg.get("fd") else {}
-    imp = block_diagonalize([h0_in, H1], subspace_eigenvectors=vecs, hermitian=herm, **kw)
+    imp = block_diagonalize([h0_in, H1], subspace_eigenvectors=vecs, hermitian=herm, **kw, **({"direct_solver": False} if cfg.get("kpm") else {}))
     full = block_diagonalize([h0_in, H1], subspace_eigenvectors=vecs + [(Q[:, k:], Lq[:, k:]) if biorth else Q[:, k:]], hermitian=herm, **kw)
     last = len(explicit)
     QB = Q[:, k:]
@@ -446,7 +446,7 @@ def c06_typed(cfg):
                     cnt += 1
     sizes = list(cfg["explicit"]) + [n - sum(cfg["explicit"])]
     keys = [(w, i, j, o) for o in range(cfg["max_order"] + 1) for w in range(3) for i in range(len(sizes)) for j in range(len(sizes))]
-    sig = f"implicit-typed:herm={herm}:basis={cfg['basis']}:real_h1={bool(cfg.get('real_h1'))}:h1={cfg.get('h1_container', 'ndarray')}"
+    sig = f"implicit-typed:herm={herm}:basis={cfg['basis']}:real_h1={bool(cfg.get('real_h1'))}:h1={cfg.get('h1_container', 'ndarray')}" + (":kpm" if cfg.get("kpm") else "")
     try:
         pairs = _numeric_pairs(cfg, model, keys, real_h1=bool(cfg.get("real_h1")))
     except Exception as e:  # noqa: BLE001
@@ -462,7 +462,7 @@ def c06_typed(cfg):
         err = float(np.max(np.abs(a - b))) if a.size else 0.0
         sc = max(1.0, float(np.max(np.abs(b))) if b.size else 1.0)
         worst = max(worst, err / sc)
-        if err > 1e-8 * sc and bad is None:
+        if err > (1e-3 if cfg.get("kpm") else 1e-8) * sc and bad is None:
             bad = dict(element=[NAMES[key[0]], *key[1:]], max_abs_error=err, scale=sc)
     if bad:
         rec.direct_violation("implicit mode differs from the complete-basis run on typed input (real sparse LU)", sig, bad, reproduced=True)
@@ -521,6 +521,10 @@ def configs(tier):
         jobs.append(("vf.props.implicit", "c06_typed", dict(c, _job="typed")))
         if c["basis"] in ("identity", "perm", "hadamard", "biorth", "rotation_pair"):
             jobs.append(("vf.props.implicit", "c06_typed", dict(c, _job="typed", real_h1=True)))
+    # KPM solver with default options: a smoke check only (runs, and agrees with the complete-basis result to 1e-3); its accuracy
+    # claim is not applicable to this technique (DESIGN section 4)
+    jobs.append(("vf.props.implicit", "c06_typed", dict(hermitian=True, n=4, explicit=[1], basis="hadamard", spectrum=["0", "1", "3", "7"], max_order=2, _job="typed", kpm=True)))
+    jobs.append(("vf.props.implicit", "c06_typed", dict(hermitian=True, n=4, explicit=[1, 1], basis="complex", spectrum=["0", "2", "3", "7"], max_order=2, _job="typed", kpm=True)))
     for c in cfgs:
         if c.get("pairs") or c["max_order"] < 3 and len(c["explicit"]) < 2 and not c.get("fd"):
             continue
